@@ -44,9 +44,35 @@ private theorem sortDedup_isEmpty' (l : List Str) : (sortDedup l).isEmpty = l.is
     | nil => rw [h] at this; cases this
     | cons _ _ => rfl
 
+/-- the wiring handed to `place` for a row is what the row is owed -/
+theorem wired_iff_owed_row (spec : Spec) (st : Step) (s : SS) (row : Nat) (v : List Str)
+    (hself : st.name ∉ hubOf st) (x : Str) :
+    wiredTo ((sortDedup (depsOf st)).isEmpty && (sortDedup (hubOf st)).isEmpty)
+      ((sortDedup (depsOf st)).map fun p => instName p (getAssoc s.used p) (combo spec.params row))
+      (sortDedup (hubOf st)) (setAssoc s.combos st.name v) x ↔
+    Owed s.used s.combos spec st row x := by
+  simp only [wiredTo, Owed, Bool.and_eq_true, sortDedup_isEmpty', List.isEmpty_iff]
+  by_cases hr : depsOf st = [] ∧ hubOf st = []
+  · simp only [hr, and_self, ↓reduceIte]
+  · simp only [hr, ↓reduceIte]
+    constructor
+    · rintro (hx | ⟨hb, h1, h2⟩)
+      · simp only [List.mem_map] at hx
+        obtain ⟨p, hp, rfl⟩ := hx
+        exact Or.inl ⟨p, mem_sortDedup.mp hp, rfl⟩
+      · have hb' := mem_sortDedup.mp h1
+        have hne : hb ≠ st.name := fun e => hself (e ▸ hb')
+        rw [getAssoc_setAssoc_ne _ _ _ _ hne] at h2
+        exact Or.inr ⟨hb, hb', h2⟩
+    · rintro (⟨p, hp, rfl⟩ | ⟨hb, h1, h2⟩)
+      · exact Or.inl (List.mem_map.mpr ⟨p, mem_sortDedup.mpr hp, rfl⟩)
+      · have hne : hb ≠ st.name := fun e => hself (e ▸ h1)
+        refine Or.inr ⟨hb, mem_sortDedup.mpr h1, ?_⟩
+        rw [getAssoc_setAssoc_ne _ _ _ _ hne]; exact h2
+
 /-- one row: the instance's dependency set is what the row is owed (tables of the state the row
-starts from), every other dependency set is untouched, the tables other than the step's own entry
-of `combos` are kept -/
+starts from), every other dependency set is untouched, the instance has become a child of exactly
+the parents it is owed, the tables other than the step's own entry of `combos` are kept -/
 theorem stageRow_deps (spec : Spec) {ord : List Str → List Str} (ho : IsPermOracle ord)
     (st : Step) (used : List Str) (s s' : SS) (row : Nat)
     (hnew : s.combos.any (·.1 == instName st.name used (combo spec.params row)) = false)
@@ -56,36 +82,27 @@ theorem stageRow_deps (spec : Spec) {ord : List Str → List Str} (ho : IsPermOr
       Owed s.used s.combos spec st row x) ∧
     (∀ k, k ≠ instName st.name used (combo spec.params row) →
       ∀ x, x ∈ getAssoc s'.g.deps k ↔ x ∈ getAssoc s.g.deps k) ∧
-    s'.used = s.used ∧ (∀ k, k ≠ st.name → getAssoc s'.combos k = getAssoc s.combos k) := by
+    s'.used = s.used ∧ (∀ k, k ≠ st.name → getAssoc s'.combos k = getAssoc s.combos k) ∧
+    (∀ k x, x ∈ getAssoc s'.g.adj k ↔ (x ∈ getAssoc s.g.adj k ∨
+      (x = instName st.name used (combo spec.params row) ∧ Owed s.used s.combos spec st row k ∧
+        k ≠ instName st.name used (combo spec.params row)))) := by
   unfold stageRow at h
   simp only [hnew, Bool.false_eq_true, ↓reduceIte] at h
   split at h
   · cases h
   · obtain ⟨p1, p2, _, _, _, _, p7, p8⟩ := place_exact ho _ _ _ _ _ _ h
-    refine ⟨?_, fun k hk x => p2 k hk x, p7, ?_⟩
+    have pa := place_adj_exact ho _ _ _ _ _ _ h
+    refine ⟨?_, fun k hk x => p2 k hk x, p7, ?_, ?_⟩
     · intro x
       rw [p1]
-      simp only [wiredTo, Owed, Bool.and_eq_true, sortDedup_isEmpty', List.isEmpty_iff]
-      by_cases hr : depsOf st = [] ∧ hubOf st = []
-      · simp only [hr, and_self, ↓reduceIte]
-      · simp only [hr, ↓reduceIte]
-        constructor
-        · rintro (hx | ⟨hb, h1, h2⟩)
-          · simp only [List.mem_map] at hx
-            obtain ⟨p, hp, rfl⟩ := hx
-            exact Or.inl ⟨p, mem_sortDedup.mp hp, rfl⟩
-          · have hb' := mem_sortDedup.mp h1
-            have hne : hb ≠ st.name := fun e => hself (e ▸ hb')
-            rw [getAssoc_setAssoc_ne _ _ _ _ hne] at h2
-            exact Or.inr ⟨hb, hb', h2⟩
-        · rintro (⟨p, hp, rfl⟩ | ⟨hb, h1, h2⟩)
-          · exact Or.inl (List.mem_map.mpr ⟨p, mem_sortDedup.mpr hp, rfl⟩)
-          · have hne : hb ≠ st.name := fun e => hself (e ▸ h1)
-            refine Or.inr ⟨hb, mem_sortDedup.mpr h1, ?_⟩
-            rw [getAssoc_setAssoc_ne _ _ _ _ hne]; exact h2
+      exact wired_iff_owed_row spec st s row _ hself x
     · intro k hk
       rw [p8]
       exact getAssoc_setAssoc_ne _ _ _ _ hk
+    · intro k x
+      rw [pa k x]
+      simp only
+      rw [wired_iff_owed_row spec st s row _ hself k]
 
 /-- the loop over the rows: for every row, the dependency set of its instance is what a row of the
 same instance name is owed; names that are no row's instance keep their dependency sets -/
@@ -104,14 +121,16 @@ theorem rows_deps (spec : Spec) {ord : List Str → List Str} (ho : IsPermOracle
           Owed U C spec st row' x) ∧
       (∀ k, (∀ row, row ∈ rows → instName st.name used (combo spec.params row) ≠ k) →
         ∀ x, x ∈ getAssoc s'.g.deps k ↔ x ∈ getAssoc s.g.deps k) ∧
-      s'.used = s.used ∧ (∀ k, k ≠ st.name → getAssoc s'.combos k = getAssoc s.combos k) := by
+      s'.used = s.used ∧ (∀ k, k ≠ st.name → getAssoc s'.combos k = getAssoc s.combos k) ∧
+      (∀ k x, x ∈ getAssoc s'.g.adj k → (x ∈ getAssoc s.g.adj k ∨ ∃ row, row ∈ rows ∧
+        x = instName st.name used (combo spec.params row) ∧ Owed U C spec st row k ∧ k ≠ x)) := by
   intro rows
   induction rows with
   | nil =>
     intro s s' _ _ _ _ h
     simp only [List.foldl_nil, Except.ok.injEq] at h
     subst h
-    exact ⟨fun row hr => (by cases hr), fun k _ x => Iff.rfl, rfl, fun k _ => rfl⟩
+    exact ⟨fun row hr => (by cases hr), fun k _ x => Iff.rfl, rfl, fun k _ => rfl, fun k x hx => Or.inl hx⟩
   | cons r rs ih =>
     intro s s' hkey hnew hU hC h
     simp only [List.foldl_cons] at h
@@ -121,14 +140,23 @@ theorem rows_deps (spec : Spec) {ord : List Str → List Str} (ho : IsPermOracle
       cases h
     | ok s1 =>
       rw [h1] at h
-      obtain ⟨a1, a2, a3, a4⟩ := stageRow_deps spec ho st used s s1 r (hnew r (List.mem_cons_self ..)) hself h1
+      obtain ⟨a1, a2, a3, a4, a5⟩ := stageRow_deps spec ho st used s s1 r (hnew r (List.mem_cons_self ..)) hself h1
       obtain ⟨_, n2, _⟩ := stageRow_node spec ord st used s s1 r hkey h1
       have hC1 : ∀ hb, hb ∈ hubOf st → getAssoc s1.combos hb = getAssoc C hb := by
         intro hb hhb
         rw [a4 hb (fun e => hself (e ▸ hhb))]; exact hC hb hhb
-      obtain ⟨b1, b2, b3, b4⟩ := ih s1 s' (by rw [n2]; exact hkey)
+      obtain ⟨b1, b2, b3, b4, b5⟩ := ih s1 s' (by rw [n2]; exact hkey)
         (fun row hr => by rw [n2]; exact hnew row (List.mem_cons_of_mem _ hr)) (by rw [a3, hU]) hC1 h
-      refine ⟨?_, ?_, by rw [b3, a3], fun k hk => by rw [b4 k hk, a4 k hk]⟩
+      refine ⟨?_, ?_, by rw [b3, a3], fun k hk => by rw [b4 k hk, a4 k hk], ?_⟩
+      rotate_left 2
+      · intro k x hx
+        rcases b5 k x hx with h5 | ⟨row, hr, e1, e2, e3⟩
+        · rcases (a5 k x).mp h5 with h6 | ⟨e1, e2, e3⟩
+          · exact Or.inl h6
+          · refine Or.inr ⟨r, List.mem_cons_self .., e1, ?_, fun hk => e3 (hk.trans e1)⟩
+            exact (owed_congr (U := U) (C := C) (U' := s.used) (C' := s.combos) spec st r
+              (fun p _ => by rw [hU]) (fun hb hhb => hC hb hhb) k).mp e2
+        · exact Or.inr ⟨row, List.mem_cons_of_mem _ hr, e1, e2, e3⟩
       · intro row hr
         by_cases hex : ∃ r'', r'' ∈ rs ∧
             instName st.name used (combo spec.params r'') = instName st.name used (combo spec.params row)
@@ -305,6 +333,13 @@ theorem usedOf_nil_deps (spec : Spec) (tbl : AL) (st : Step) (h : usedOf spec tb
       have := h0 a hmem
       cases this
 
+/-- why `x` is a child of `k`: `x` is an instance of `st` and `k` is among the parents a row of that
+name is owed -/
+def AdjWitness (spec : Spec) (s : SS) (st : Step) (k x : Str) : Prop :=
+  if (getAssoc s.used st.name).isEmpty then x = st.name ∧ Owed s.used s.combos spec st 0 k
+  else ∃ row, row < nRows spec.params ∧
+    x = instName st.name (getAssoc s.used st.name) (combo spec.params row) ∧ Owed s.used s.combos spec st row k
+
 /-- **what the staging of one step leaves behind**: the dependency sets of its instances are what
 the tables - as the step leaves them - say they are owed; no other dependency set has changed; the
 tables have changed in the step's own entries only -/
@@ -315,7 +350,8 @@ theorem stageStep_deps (spec : Spec) (hc : NoClash spec) {ord : List Str → Lis
     DepsOK spec s' st ∧
     (∀ k, ¬ InstNameOf spec st (getAssoc s'.used st.name) k →
       ∀ x, x ∈ getAssoc s'.g.deps k ↔ x ∈ getAssoc s.g.deps k) ∧
-    (∀ k, k ≠ st.name → getAssoc s'.used k = getAssoc s.used k ∧ getAssoc s'.combos k = getAssoc s.combos k) := by
+    (∀ k, k ≠ st.name → getAssoc s'.used k = getAssoc s.used k ∧ getAssoc s'.combos k = getAssoc s.combos k) ∧
+    (∀ k x, x ∈ getAssoc s'.g.adj k → (x ∈ getAssoc s.g.adj k ∨ (k ≠ x ∧ AdjWitness spec s' st k x))) := by
   have hname : st.name ∈ SOURCE :: spec.steps.map (·.name) :=
     List.mem_cons_of_mem _ (List.mem_map.mpr ⟨st, hst, rfl⟩)
   unfold stageStep at h
@@ -334,11 +370,11 @@ theorem stageStep_deps (spec : Spec) (hc : NoClash spec) {ord : List Str → Lis
         simp only at p1 p2 p7 p8
         have hused' : getAssoc s'.used st.name = [] := by rw [p7, getAssoc_setAssoc_self]
         have hnil := usedOf_nil_deps spec s.used st hused
-        refine ⟨?_, ?_, ?_⟩
-        · unfold DepsOK
-          simp only [hused', List.isEmpty_nil, ↓reduceIte]
+        have hw : ∀ x, wiredTo ((sortDedup (depsOf st)).isEmpty && (sortDedup (hubOf st)).isEmpty)
+            (sortDedup (depsOf st)) (sortDedup (hubOf st))
+            (setAssoc (setAssoc s.combos st.name []) st.name [st.name]) x ↔
+            Owed s'.used s'.combos spec st 0 x := by
           intro x
-          rw [p1]
           simp only [wiredTo, Owed, Bool.and_eq_true, sortDedup_isEmpty', List.isEmpty_iff]
           by_cases hr : depsOf st = [] ∧ hubOf st = []
           · simp only [hr, and_self, ↓reduceIte]
@@ -360,6 +396,14 @@ theorem stageStep_deps (spec : Spec) (hc : NoClash spec) {ord : List Str → Lis
               · rw [hinst p hp] at e; subst e
                 exact Or.inl (mem_sortDedup.mpr hp)
               · exact Or.inr ⟨hb, mem_sortDedup.mpr h1, by rw [p8] at h2; exact h2⟩
+        have pa := place_adj_exact ho _ _ _ _ _ _ h
+        simp only at pa
+        refine ⟨?_, ?_, ?_, ?_⟩
+        · unfold DepsOK
+          simp only [hused', List.isEmpty_nil, ↓reduceIte]
+          intro x
+          rw [p1]
+          exact hw x
         · intro k hk x
           have : k ≠ st.name := by
             intro e; apply hk; unfold InstNameOf; simp [hused', e]
@@ -368,6 +412,13 @@ theorem stageStep_deps (spec : Spec) (hc : NoClash spec) {ord : List Str → Lis
           rw [p7, p8]
           exact ⟨getAssoc_setAssoc_ne _ _ _ _ hk, by
             rw [getAssoc_setAssoc_ne _ _ _ _ hk, getAssoc_setAssoc_ne _ _ _ _ hk]⟩
+        · intro k x hx
+          rcases (pa k x).mp hx with h1 | ⟨e1, e2, e3⟩
+          · exact Or.inl h1
+          · refine Or.inr ⟨fun hk => e3 (hk.trans e1), ?_⟩
+            unfold AdjWitness
+            simp only [hused', List.isEmpty_nil, ↓reduceIte]
+            exact ⟨e1, (hw k).mp e2⟩
     · -- one instance per row
       rename_i hu
       have hu' : used.isEmpty = false := by simpa using hu
@@ -386,15 +437,25 @@ theorem stageStep_deps (spec : Spec) (hc : NoClash spec) {ord : List Str → Lis
           · exact hkeys _ e
           · have : st.name = instName st.name used (combo spec.params row) := by simpa using e
             rw [← this]; exact hname
-      obtain ⟨b1, b2, b3, b4⟩ := rows_deps spec ho st used hself (setAssoc s.used st.name used)
+      obtain ⟨b1, b2, b3, b4, b5⟩ := rows_deps spec ho st used hself (setAssoc s.used st.name used)
         (setAssoc s.combos st.name []) (List.range (nRows spec.params))
         { s with hub := setAssoc s.hub st.name (sortDedup (hubOf st)),
                  depends := setAssoc s.depends st.name (sortDedup (depsOf st)),
                  used := setAssoc s.used st.name used,
                  combos := setAssoc s.combos st.name [] } s' hkey hnew rfl (fun hb _ => rfl) h
-      simp only at b2 b3 b4
+      simp only at b2 b3 b4 b5
       have hused' : getAssoc s'.used st.name = used := by rw [b3, getAssoc_setAssoc_self]
-      refine ⟨?_, ?_, ?_⟩
+      refine ⟨?_, ?_, ?_, ?_⟩
+      rotate_left 3
+      · intro k x hx
+        rcases b5 k x hx with h1 | ⟨row, hr, e1, e2, e3⟩
+        · exact Or.inl h1
+        · refine Or.inr ⟨e3, ?_⟩
+          unfold AdjWitness
+          simp only [hused', hu', Bool.false_eq_true, ↓reduceIte]
+          refine ⟨row, List.mem_range.mp hr, e1, ?_⟩
+          apply (owed_congr spec st row (fun p _ => by rw [b3]) (fun hb hhb => ?_) k).mpr e2
+          exact b4 hb (fun e => hself (e ▸ hhb))
       · unfold DepsOK
         simp only [hused', hu', Bool.false_eq_true, ↓reduceIte]
         intro row hrow
